@@ -27,6 +27,7 @@ RULE = (
     '{1,-1,2,m,2/m,222,mm2,mmm,4,-4,4/m,422,4mm,-42m,4/mmm,23,m-3,432,-43m,m-3m}; matrices {I, diag, shear, rotation, '
     'singular, integer}; autocorrelation for every T=1..40 x {constant, alternating, rotating, decaying} x 1-3 '
     'particles; evaluation = one vector/array comparison; distinct = distinct observed vector arrays'
+    '; all chains of <= 3 operations over {normalize, 3 transforms} x side calls on every intermediate object; autocorrelation also through Orientations.autocorrelation on vectors of varying length'
 )
 LEVEL_TEXT = (
     'Bounded-exhaustive over the cluster/lattice alphabet (bonds crossing faces and corners in every lattice '
